@@ -11,6 +11,7 @@ namespace vf {
 
 static int g_fd = 1;
 static bool g_verbose = false;
+static bool g_fuzz = false;    // in-process fuzzing (libFuzzer): many cases per process, a violation traps instead of leaving
 static std::map<std::string, long> g_labels;
 static bool g_nt = false;
 static long g_skipped = 0, g_ops = 0;
@@ -19,6 +20,14 @@ void (*cleanup_hook)() = nullptr;   // e.g. removal of the per-case temporary di
 static void run_cleanup() { if (cleanup_hook) { auto f = cleanup_hook; cleanup_hook = nullptr; f(); } }
 
 void set_report(int fd, bool verb) { g_fd = fd; g_verbose = verb; }
+void set_fuzz_mode(bool on) { g_fuzz = on; }
+// forget everything recorded for the previous case (fuzz mode runs many cases in one process)
+void reset_case_state() {
+    alloctrack::Pause p;
+    g_labels.clear(); g_nt = false; g_skipped = 0; g_ops = 0; g_notes.clear(); cleanup_hook = nullptr;
+    for (size_t i = 0; i < alloctrack::CAP; ++i) alloctrack::table[i].p = nullptr;
+    alloctrack::live_blocks = 0; alloctrack::total_tracked = 0; alloctrack::depth = 0;
+}
 bool verbose() { return g_verbose; }
 
 static void put(const std::string &s) {
@@ -58,6 +67,7 @@ static std::string vfmt(const char *fmt, va_list ap) {
 
 void violation(const char *cls, const char *fmt, ...) {
     va_list ap; va_start(ap, fmt); std::string m = vfmt(fmt, ap); va_end(ap);
+    if (g_fuzz) { run_cleanup(); fprintf(stderr, "VF-VIOLATION class=%s %s\n", cls, m.c_str()); fflush(stderr); __builtin_trap(); }
     if (g_verbose) {
         fprintf(stdout, "---- trace (%zu notes)\n", g_notes.size());
         for (auto &n : g_notes) fprintf(stdout, "  %s\n", n.c_str());
@@ -71,17 +81,19 @@ void violation(const char *cls, const char *fmt, ...) {
 void internal_error(const char *fmt, ...) {
     va_list ap; va_start(ap, fmt); std::string m = vfmt(fmt, ap); va_end(ap);
     run_cleanup();
+    if (g_fuzz) { fprintf(stderr, "VF-INTERNAL %s\n", m.c_str()); fflush(stderr); __builtin_trap(); }
     emit("INTERNAL", "INTERNAL", m);
     _exit(g_verbose ? 3 : 0);
 }
 
-void label(const char *name) { alloctrack::Pause p; g_labels[name] = 1; }
-void label_n(const char *name, long n) { alloctrack::Pause p; g_labels[name] += n; }
+void label(const char *name) { if (g_fuzz) return; alloctrack::Pause p; g_labels[name] = 1; }
+void label_n(const char *name, long n) { if (g_fuzz) return; alloctrack::Pause p; g_labels[name] += n; }
 void nontrivial() { g_nt = true; }
 void count_skipped(long n) { g_skipped += n; }
 void count_ops(long n) { g_ops += n; }
 
 void note(const char *fmt, ...) {
+    if (g_fuzz) return;
     alloctrack::Pause p;
     if (!g_verbose && g_notes.size() > 4000) return;
     va_list ap; va_start(ap, fmt); g_notes.push_back(vfmt(fmt, ap)); va_end(ap);
@@ -91,6 +103,7 @@ const std::vector<std::string> &notes() { return g_notes; }
 
 void finish_ok() {
     run_cleanup();
+    if (g_fuzz) return;
     // explicit leak check: the child leaves through _exit, so the atexit check never runs
     if (__lsan_do_recoverable_leak_check && getenv("VF_LSAN")) {
         if (__lsan_do_recoverable_leak_check() != 0) {
